@@ -231,10 +231,23 @@ fn check_tree(text: &[u8], ro: &J, t: &J, parent: Option<(usize, usize)>, bad: &
         }
     }
     let slice = &text[s..e];
+    // the shorthand characters that stand for the symbol this node holds (if it is one of the four quote names)
+    let names_shorthand = |sh: &[u8]| -> bool {
+        let name: &[u8] = match sh {
+            b"'" => b"quote",
+            b"`" => b"quasiquote",
+            b"," => b"unquote",
+            b",@" => b"unquote-splicing",
+            _ => return false,
+        };
+        t["v"]["k"] == "sym" && t["v"]["s"].as_array().map(|a| a.iter().map(|c| c.as_u64().unwrap_or(0) as u8).collect::<Vec<u8>>() == name).unwrap_or(false)
+    };
     if head_of_shorthand {
-        if !SHORTHANDS.contains(&slice) {
+        if !names_shorthand(slice) {
             bad.push(format!("head span of a quote shorthand covers {:?}", String::from_utf8_lossy(slice)));
         }
+    } else if names_shorthand(slice) {
+        // a shorthand in a dotted tail, (a . 'x) = (a quote x): its head is an element of the enclosing list
     } else {
         let r = std::panic::catch_unwind(|| lexpr::from_slice_custom(slice, parse_opts(ro)));
         match r {
